@@ -7,10 +7,12 @@ import runner
 from sim import invoker, fakevcs, realgit
 
 STATUSES = ["clean", "modified_unstaged", "modified_staged", "modified_both", "added", "added_modified",
-            "deleted_unstaged", "deleted_staged", "renamed", "untracked"]
+            "deleted_unstaged", "deleted_staged", "renamed", "untracked", "removed_from_index"]
 # what git prints in the two status columns for each kind (validated on every run; a mismatch is a harness error)
 EXPECT_XY = {"modified_unstaged": " M", "modified_staged": "M ", "modified_both": "MM", "added": "A ", "added_modified": "AM",
-             "deleted_unstaged": " D", "deleted_staged": "D ", "renamed": "R ", "untracked": "??"}
+             "deleted_unstaged": " D", "deleted_staged": "D ", "renamed": "R ", "untracked": "??",
+             # `git rm --cached`: the file stays on disk; git lists the path twice, as a staged deletion and as untracked
+             "removed_from_index": "D "}
 TODAY = dt.date(2022, 3, 4)
 
 CFG = ('[bumpver]\ncurrent_version = "1.2.3"\nversion_pattern = "MAJOR.MINOR.PATCH"\ncommit = true\ntag = true\npush = false\n\n'
@@ -70,6 +72,8 @@ def apply_status(rg, d, path, status, is_pattern):
         rg.git("mv", "--", path + ".old", path)
     elif status == "untracked":
         pass
+    elif status == "removed_from_index":
+        rg.git("rm", "-q", "--cached", "--", path)
 
 
 class Dirty:
@@ -106,7 +110,8 @@ class Dirty:
                     continue
                 used.add(path)
                 st = rng.choice(STATUSES)
-                if path == "bumpver.toml" and st in ("added", "added_modified", "untracked", "renamed", "deleted_unstaged", "deleted_staged"):
+                if path == "bumpver.toml" and st in ("added", "added_modified", "untracked", "renamed", "deleted_unstaged", "deleted_staged",
+                                                     "removed_from_index"):
                     st = rng.choice(["modified_unstaged", "modified_staged", "modified_both"])
                 dirt.append({"status": st, "target": target, "path": path})
             case = {"dirt": dirt, "allow": rng.random() < 0.6, "many": rng.choice([0, 0, 0, 9, 11, 12, 30]),
